@@ -17,6 +17,7 @@ import (
 	"runtime"
 	"runtime/debug"
 	"sync"
+	"sync/atomic"
 	"syscall"
 	"time"
 	"unsafe"
@@ -82,19 +83,31 @@ type ThreadPanic struct {
 	Stack string
 }
 
+// thread is a persistent simulated-thread goroutine. Threads are created once
+// and re-used by later runs: creating a goroutine per run would leave it in the
+// run queue of a P that is stuck in the scheduler's blocking read, waiting for
+// sysmon to retake it (milliseconds per run).
 type thread struct {
-	id       int
-	rfd, wfd int
-	msg      [40]byte
-	rep      [9]byte
-	pending  Event
+	id         int
+	rfd, wfd   int
+	msg        [40]byte
+	rep        [9]byte
+	pending    Event
 	pendingIdx int
-	parked   bool
-	done     bool
-	dying    bool
-	exited   chan struct{}
-	panicVal any
-	stack    string
+	parked     bool
+	done       bool
+	dying      bool
+	retired    bool                // its goroutine exited (after a panic or kill); respawn before re-use
+	job        atomic.Pointer[job] // published by the scheduler (release), loaded by the thread (acquire)
+	finished   atomic.Uint64       // run number the thread last finished (release), read by the scheduler (acquire)
+	panicVal   any
+	stack      string
+}
+
+type job struct {
+	sim  *Sim
+	run  uint64
+	body func(tid int)
 }
 
 type lockState struct {
@@ -114,7 +127,7 @@ type Sim struct {
 	locks   map[int]*lockState
 	events  []Event
 	step    int
-	wg      sync.WaitGroup
+	run     uint64
 	// PoolHook, if set, is told about every pool decision (for probes).
 	PoolHook func(get bool, n, choice int)
 }
@@ -123,7 +136,9 @@ var (
 	theSim   *Sim // norace only
 	progress uint64
 	once     sync.Once
-	pipePool [][2]int // free pipes, scheduler goroutine only
+	pipePool [][2]int  // free pipes, scheduler goroutine only
+	pool     []*thread // persistent threads, scheduler goroutine only
+	runCount uint64
 )
 
 //go:norace
@@ -305,25 +320,48 @@ func Yield(kind int, a, b int64) int64 {
 	return s.yield(kind, 0, a, b)
 }
 
-func (s *Sim) threadMain(t *thread, body func()) {
-	defer close(t.exited)
-	defer s.wg.Done()
-	defer func() {
-		r := recover()
-		if _, ok := r.(killed); ok || isDying(t) {
+// loop is the body of a persistent simulated thread.
+//
+// After a run in which the thread's body panicked or was killed the goroutine
+// exits and the scheduler starts a fresh one for the slot: the race detector's
+// shadow call stack is not unwound by a recovered panic, so re-using such a
+// goroutine would leak shadow frames (and garble later reports).
+func (t *thread) loop() {
+	for {
+		// Wait for the scheduler to assign a run (raw read: no happens-before).
+		rawRead(t.rfd, unsafe.Pointer(&t.rep[0]), 9)
+		j := t.job.Load() // acquire: everything the scheduler prepared is visible
+		if !t.runBody(j) {
 			return
 		}
+	}
+}
+
+// runBody reports whether the goroutine may be re-used.
+func (t *thread) runBody(j *job) (clean bool) {
+	s := j.sim
+	defer func() {
+		r := recover()
 		var p int64
-		if r != nil {
+		if _, ok := r.(killed); ok || isDying(t) {
+			p = 2
+		} else if r != nil {
 			t.panicVal = r
 			t.stack = string(debug.Stack())
 			p = 1
 		}
+		setDying(t, false)
+		clean = p == 0
+		t.finished.Store(j.run) // release: the scheduler reads this after KDone
 		s.yield(KDone, 0, p, 0)
 	}()
 	s.yield(KStart, 0, 0, 0)
-	body()
+	j.body(t.id)
+	return true
 }
+
+//go:norace
+func setDying(t *thread, v bool) { t.dying = v }
 
 //go:norace
 func isDying(t *thread) bool { return t.dying }
@@ -405,6 +443,10 @@ func (s *Sim) accept(t *thread) {
 		}
 	case KDone:
 		t.done = true
+		t.retired = a != 0
+		if t.finished.Load() != s.run { // acquire: orders the thread's run before what follows
+			fatal("thread finished a different run")
+		}
 	}
 	t.pending = ev
 	t.parked = kind != KDone
@@ -438,20 +480,40 @@ func Run(ch chooser.Chooser, cfg Config, bodies []func(tid int)) *Result {
 	s.setRunning(true)
 	Arm(true)
 
-	// Start threads one at a time so that the start messages arrive in order.
+	// Assign the bodies to persistent threads one at a time, so that the start
+	// messages arrive in order.
+	runCount++
+	s.run = runCount
 	for i, body := range bodies {
-		p := getPipe()
-		t := &thread{id: i, rfd: p[0], wfd: p[1], exited: make(chan struct{})}
+		for len(pool) <= i {
+			p := getPipe()
+			t := &thread{id: len(pool), rfd: p[0], wfd: p[1]}
+			pool = append(pool, t)
+			go t.loop()
+		}
+		t := pool[i]
+		if t.retired {
+			t.retired = false
+			go t.loop()
+		}
+		t.pending, t.pendingIdx, t.parked, t.done, t.panicVal, t.stack = Event{}, 0, false, false, nil, ""
 		s.threads = append(s.threads, t)
-		s.wg.Add(1)
-		s.setCur(t)
-		body := body
-		go s.threadMain(t, func() { body(t.id) })
+		t.job.Store(&job{sim: s, run: s.run, body: body}) // release
+		s.resume(t, false, 0)
 		s.accept(t)
 	}
 
 	res := &Result{}
 	var last *thread
+	defer func() {
+		// A chooser panic (replay diverged / exhausted) must not leave threads
+		// parked in the middle of a run.
+		if r := recover(); r != nil {
+			s.shutdown()
+			putPipe(sp)
+			panic(r)
+		}
+	}()
 	for {
 		var runnable []*thread
 		unfinished, contended := 0, false
@@ -496,23 +558,12 @@ func Run(ch chooser.Chooser, cfg Config, bodies []func(tid int)) *Result {
 		s.accept(t)
 	}
 
-	// Kill whatever is still parked (deadlock / overrun), one thread at a time.
-	for _, t := range s.threads {
-		if !t.done {
-			s.resume(t, true, 0)
-			<-t.exited
-		}
-	}
-	s.wg.Wait()
-	s.setRunning(false)
-	setSim(nil)
-	Arm(false)
+	s.shutdown()
 
 	for _, t := range s.threads {
 		if t.panicVal != nil {
 			res.Panics = append(res.Panics, ThreadPanic{Tid: t.id, Value: fmt.Sprint(t.panicVal), Stack: t.stack})
 		}
-		putPipe([2]int{t.rfd, t.wfd})
 	}
 	putPipe(sp)
 	res.Events = s.events
@@ -520,6 +571,20 @@ func Run(ch chooser.Chooser, cfg Config, bodies []func(tid int)) *Result {
 	res.Races = runtime_RaceErrors() - races0
 	res.Hash = hashEvents(s.events)
 	return res
+}
+
+// shutdown kills whatever is still parked (deadlock / overrun / abort), one
+// thread at a time: the thread unwinds without yielding and reports back.
+func (s *Sim) shutdown() {
+	for _, t := range s.threads {
+		if !t.done {
+			s.resume(t, true, 0)
+			s.accept(t)
+		}
+	}
+	s.setRunning(false)
+	setSim(nil)
+	Arm(false)
 }
 
 // pick chooses the next thread to resume.
@@ -618,3 +683,18 @@ func hashEvents(evs []Event) uint64 {
 	}
 	return h
 }
+
+// CurrentTid reports the id of the running simulated thread (-1 outside a run).
+//
+//go:norace
+func CurrentTid() int {
+	s := theSim
+	if s == nil || !s.running || s.cur == nil {
+		return -1
+	}
+	return s.cur.id
+}
+
+// IsKill reports whether a recovered panic value is the scheduler's kill
+// signal, which harness code on a simulated thread must re-panic.
+func IsKill(r any) bool { _, ok := r.(killed); return ok }
